@@ -24,9 +24,9 @@
 (***************************************************************************)
 EXTENDS CalStore, TraceCommon
 
-VARIABLES stores, l
+VARIABLES stores, saved, l
 
-tvars == <<stores, l>>
+tvars == <<stores, saved, l>>
 
 ProbeF == <<0, 1, 2, 3, 4, 5>>
 
@@ -54,7 +54,7 @@ OpNames == {"MakeScalar", "MakeVector", "MakeUnknown", "MakeCorrelated",
             "DeleteParameter", "GetParameterValue", "NewAlloc",
             "SetFrequencyVector", "SetZ0", "AddStd", "Solve", "NewFree",
             "AddCalibration", "DeleteCalibration", "FindCalibration", "Get",
-            "Prop", "SetPrecision", "Free"}
+            "Prop", "SetPrecision", "Save", "Free"}
 
 NeedsNew == {"SetFrequencyVector", "SetZ0", "AddStd", "Solve", "NewFree"}
 
@@ -91,8 +91,8 @@ OpOf(ev, s) ==
          [] ev.e = "FindCalibration" -> b @@ [name |-> ev.name]
          [] ev.e = "Get" -> b @@ [what |-> ev.what, ci |-> ev.ci]
          [] ev.e = "Prop" -> b @@ [ci |-> ev.ci, pop |-> PropOpOf(ev)]
-         [] ev.e = "SetPrecision" -> b @@ [p |-> ev.p]
-         [] ev.e = "Free" -> b
+         [] ev.e = "SetPrecision" -> b @@ [p |-> ev.p, which |-> ev.which]
+         [] ev.e \in {"Free", "Save"} -> b
 
 PropValMatches(kind, r, ev) ==
     CASE kind \in {"Set", "SetSub", "Del"} -> TRUE
@@ -154,11 +154,12 @@ ObsAll(e, S, obs) ==
     /\ \A i \in 1..Len(obs) : ObsOK(e, S[obs[i].vc], obs[i])
 
 -----------------------------------------------------------------------------
-TInit == stores = <<>> /\ l = 1
+TInit == stores = <<>> /\ saved = <<>> /\ l = 1
 
 TReset ==
     /\ TraceLog[l].e = "Reset"
     /\ stores' = <<>>
+    /\ saved' = <<>>
 
 TCreate ==
     LET ev == TraceLog[l]
@@ -167,7 +168,7 @@ TCreate ==
        /\ Explain(ev.ok = 1, <<l, "Create", "ok", TRUE>>)
        /\ Explain(Len(ev.cb) = 0, <<l, "Create", "cb", 0>>)
        /\ LET S == FPut(stores, ev.vc, InitStore)
-          IN ObsAll("Create", S, ev.obs) /\ stores' = S
+          IN ObsAll("Create", S, ev.obs) /\ stores' = S /\ saved' = saved
 
 TCall ==
     LET ev == TraceLog[l]
@@ -190,6 +191,45 @@ TCall ==
                               <<l, ev.e, "left", {}>>)
                    /\ ObsAll(ev.e, S, ev.obs)
                    /\ stores' = S
+                   /\ saved' = IF ev.e = "Save" /\ r.ok
+                               THEN FPut(saved, ev.file, s) ELSE saved
+
+(* vnacal_load of a file written by an earlier Save event.  The loaded     *)
+(* container holds exactly the saved calibrations (matched by name; names  *)
+(* are unique); which index each gets is taken from the projection.  The   *)
+(* pool impedances have at most two significant digits per component, so   *)
+(* z0 must come back exactly when the data precision at save time was at   *)
+(* least 2; frequencies of the pool have one significant digit.            *)
+ObsOf(obs, vc) == obs[CHOOSE i \in 1..Len(obs) : obs[i].vc = vc]
+
+TLoad ==
+    LET ev == TraceLog[l]
+    IN /\ ev.e = "Load"
+       /\ Explain(ev.vc \notin DOMAIN stores /\ ev.file \in DOMAIN saved,
+                  <<l, "Load", "harness:vc", 0>>)
+       /\ Explain(ev.ok = 1, <<l, "Load", "ok", TRUE>>)
+       /\ Explain(CallbackOK("Load", TRUE, ev.err, ev.cb), <<l, "Load", "cb", 0>>)
+       /\ Explain(\E i \in 1..Len(ev.obs) : ev.obs[i].vc = ev.vc,
+                  <<l, "Load", "obs.stores", ev.vc>>)
+       /\ LET src   == saved[ev.file]
+              o     == ObsOf(ev.obs, ev.vc)
+              liv   == {i \in 1..Len(o.slots) : o.slots[i].x = 1}
+              names == {o.slots[i].name : i \in liv}
+              srcn  == {src.slots[c].name : c \in DOMAIN src.slots}
+          IN /\ Explain(names = srcn /\ Cardinality(liv) = Cardinality(srcn),
+                        <<l, "Load", "names", srcn>>)
+             /\ LET slotOf(nm) == src.slots[CHOOSE c \in DOMAIN src.slots :
+                                                src.slots[c].name = nm]
+                    S == FPut(stores, ev.vc,
+                           [InitStore EXCEPT
+                              !.gprops = src.gprops,
+                              !.slots = [c \in {i - 1 : i \in liv} |->
+                                 IF src.dprec >= 2 THEN slotOf(o.slots[c + 1].name)
+                                 ELSE [slotOf(o.slots[c + 1].name) EXCEPT
+                                          !.z0 = o.slots[c + 1].z0]]])
+                IN /\ ObsAll("Load", S, ev.obs)
+                   /\ stores' = S
+                   /\ saved' = saved
 
 (* vnacal_name_to_type / vnacal_type_to_name: ev.canon is the canonical    *)
 (* type name the pool entry spells ("none" if it is no type name)          *)
@@ -199,7 +239,7 @@ TPure ==
        /\ Explain(ev.val = DoNameToType(ev.canon),
                   <<l, ev.e, "val", DoNameToType(ev.canon)>>)
        /\ Explain(Len(ev.cb) = 0, <<l, ev.e, "cb", 0>>)
-       /\ stores' = stores
+       /\ stores' = stores /\ saved' = saved
 
 (* end of an episode: every vnacal_t was freed and no allocation made      *)
 (* inside the library is still live (C03)                                  *)
@@ -208,12 +248,12 @@ TEnd ==
     IN /\ ev.e = "End"
        /\ Explain(DOMAIN stores = {}, <<l, "End", "harness:unfreed", {}>>)
        /\ Explain(ev.live = 0, <<l, "End", "live", 0>>)
-       /\ stores' = <<>>
+       /\ stores' = <<>> /\ saved' = <<>>
 
 TNext ==
     /\ l <= Len(TraceLog)
     /\ l' = l + 1
-    /\ (TReset \/ TCreate \/ TCall \/ TPure \/ TEnd)
+    /\ (TReset \/ TCreate \/ TCall \/ TLoad \/ TPure \/ TEnd)
 
 TraceSpec == TInit /\ [][TNext]_tvars
 =============================================================================
